@@ -39,6 +39,7 @@ KINDS = {"R": "refinement", "A": "alternative", "N": "next_rule"}
 class P:
     a: int
     b: int = 0
+    uid: int = -1            # position in the world (used when a conclusion is built from an attribute of x: "concl_attr")
 
 
 @dataclass(eq=False)
@@ -59,6 +60,29 @@ class View:
 
 VIEWS = [dataclass(eq=False)(type(f"V{i}", (View,), {})) for i in range(NTAGS)]
 TAG_OF = {c: i for i, c in enumerate(VIEWS)}
+
+
+@dataclass(eq=False)
+class ViewU:
+    """conclusions built from an ATTRIBUTE of the rule variable: inference(VU<i>)(uid=x.uid)  ("concl_attr")"""
+    uid: int = None
+
+
+VIEWS_U = [dataclass(eq=False)(type(f"VU{i}", (ViewU,), {})) for i in range(NTAGS)]
+TAG_OF.update({c: i for i, c in enumerate(VIEWS_U)})
+
+
+@dataclass(eq=False)
+class ViewF:
+    """inferred instances that are FALSY (a container-like view that is empty)  ("falsy_views")"""
+    p: P = None
+
+    def __len__(self):
+        return 0
+
+
+VIEWS_F = [dataclass(eq=False)(type(f"VF{i}", (ViewF,), {})) for i in range(NTAGS)]
+TAG_OF.update({c: i for i, c in enumerate(VIEWS_F)})
 
 
 @dataclass(eq=False)
@@ -95,7 +119,7 @@ def run_case(case) -> list:
     from krrood.entity_query_language.symbolic import SymbolicExpression
 
     SymbolicExpression._symbolic_expression_stack_.clear()
-    xs = [(Q if (case.get("forms") and b == 1) else P)(a, b) for a, b in case["world"]]
+    xs = [(Q if (case.get("forms") and b == 1) else P)(a, b, i0) for i0, (a, b) in enumerate(case["world"])]
     keep = []
     index = {id(p): i for i, p in enumerate(xs)}
     try:
@@ -118,6 +142,12 @@ def run_case(case) -> list:
             SymbolGraph().clear()
             sbase, view_classes = sym_views()
             views = let(sbase, domain=None)
+        elif case.get("concl_attr"):
+            view_classes = VIEWS_U
+            views = inference(ViewU)()
+        elif case.get("falsy_views"):
+            view_classes = VIEWS_F
+            views = inference(ViewF)()
         else:
             views = inference(View)()
         const_tags = case.get("const_tags") or []
@@ -169,6 +199,8 @@ def run_case(case) -> list:
             if rule["tag"] is not None:
                 if rule["tag"] in const_tags:
                     Add(views, inference(view_classes[rule["tag"]])())      # a conclusion that mentions no variable
+                elif case.get("concl_attr"):
+                    Add(views, inference(view_classes[rule["tag"]])(uid=x.uid))     # built from an attribute of x
                 else:
                     Add(views, inference(view_classes[rule["tag"]])(p=x))
             for kind, sub in rule["body"]:
@@ -206,7 +238,7 @@ def run_case(case) -> list:
                 gc.collect()
         out, again, seen = [], [], set()
         for v in q.evaluate():
-            row = [TAG_OF.get(type(v), -1), index.get(id(v.p), -1)]
+            row = [TAG_OF.get(type(v), -1), v.uid if case.get("concl_attr") else index.get(id(v.p), -1)]
             if id(v) in seen:
                 again.append(row)          # the very same instance object returned a second time (C08-f)
             else:
@@ -229,7 +261,7 @@ def snippet(case) -> str:
         "from krrood.entity_query_language.quantify_entity import an",
         "from krrood.entity_query_language.conclusion import Add",
         "from krrood.entity_query_language.rule import refinement, alternative, next_rule",
-        "@dataclass(eq=False)\nclass P:\n    a: int\n    b: int = 0",
+        "@dataclass(eq=False)\nclass P:\n    a: int\n    b: int = 0\n    uid: int = -1",
         "@dataclass(eq=False)\nclass Q(P): ...",
         "@dataclass(eq=False)\nclass View:\n    p: P = None",
     ]
@@ -296,7 +328,11 @@ def snippet(case) -> str:
             if r["tag"] in (case.get("const_tags") or []):
                 lines.append(f"{pad}Add(views, inference(V{r['tag']})())        # mentions no variable of the binding")
             else:
-                lines.append(f"{pad}Add(views, inference(V{r['tag']})(p=x))")
+                if case.get("concl_attr"):
+                    lines.append(f"{pad}Add(views, inference(V{r['tag']})(uid=x.uid))   # (View needs a field uid: int = None; xs[i].uid must be i)")
+                else:
+                    lines.append(f"{pad}Add(views, inference(V{r['tag']})(p=x))"
+                                 + ("   # (View must be falsy: def __len__(self): return 0)" if case.get("falsy_views") else ""))
             wrote = True
         for k, s in r["body"]:
             lines.append(f"{pad}with {KINDS[k]}({conds(s)}):")
@@ -822,7 +858,7 @@ def gen_case_round7(rng, good):
             walk(sub)
 
     walk(c["prog"])
-    kind = rng.choice(["const", "boxes", "selected_let"])
+    kind = rng.choice(["const", "boxes", "boxes", "selected_let", "falsy"])
     if kind == "const" and tags:
         c["const_tags"] = sorted(set(rng.sample(tags, min(len(tags), rng.randint(1, 2)))))
     elif kind == "boxes":
@@ -832,6 +868,10 @@ def gen_case_round7(rng, good):
             sizes.append(k0)
             n -= k0
         c["boxes"] = sizes
+        if rng.chance(0.5):
+            c["concl_attr"] = True      # ... and the conclusions are built from an attribute of the flattened element
+    elif kind == "falsy":
+        c["falsy_views"] = True
     else:
         c["selected_let"] = True
     return c
@@ -1289,6 +1329,9 @@ def run(tier: str, seed: int, replay=None) -> int:
 
         count_kinds(c["prog"])
         r7 = "const_tags" if c.get("const_tags") else "boxes" if c.get("boxes") else "selected_let" if c.get("selected_let") else None
+        if c.get("concl_attr") or c.get("falsy_views"):
+            k8 = "round8:" + ("concl_attr" if c.get("concl_attr") else "falsy_views")
+            dist[k8] = dist.get(k8, 0) + 1
         if r7:
             dist["round7:" + r7] = dist.get("round7:" + r7, 0) + 1
             s_raw = s
